@@ -538,6 +538,12 @@ func (b *Builder) AllComparisonSeries(existing []*ComparisonSeries, dupeHow int)
 					}
 
 				} else { // Current augments, but this will do the wrong thing if one is an old summary; also need to think about "repeat"
+					if hp, ok := cs.HashPairs[serString]; ok && hp.DenHash == "" && tr.baselineHashString != "" && hp.NumHash == hashString {
+						// As above: the pair was recorded from an experiment
+						// without baseline measurements that map iteration
+						// happened to visit first.
+						cs.HashPairs[serString] = ComparisonHashes{NumHash: hashString, DenHash: tr.baselineHashString}
+					}
 					// augment an existing measurement (i.e., a second experiment on this same datapoint)
 					// fmt.Printf("Augment u:%s,b:%s,ch:%s,cd:%s; cc=%v[n(%d+%d)d(%d+%d)]\n",
 					// 	u.StringValues(), bench.StringValues(), hash.StringValues(), ser.StringValues(),
